@@ -4,6 +4,7 @@ import (
 	"fmt"
 	"go/constant"
 	"go/token"
+	"os"
 	"strings"
 
 	"golang.org/x/tools/go/ssa"
@@ -244,6 +245,24 @@ func c06Single(c *Ctx, T *ssa.Function, barms, parms map[int64]OpArm, condH *ssa
 			continue
 		}
 		calls := callsTo(u.h, T)
+		// ... or the decision is taken in the operator's own arm and handed to a shared selection helper as a flag
+		if len(calls) == 0 && (u.name == "&&" || u.name == "||") {
+			arm := barms[c.SK(map[string]string{"&&": "SK_AmpersandAmpersand", "||": "SK_BarBar"}[u.name])]
+			if arm.Call != nil {
+				for _, a := range arm.Call.Call.Args {
+					if !isBoolType(a.Type()) {
+						continue
+					}
+					v := a
+					if un, isU := v.(*ssa.UnOp); isU && un.Op == token.NOT {
+						v = un.X
+					}
+					if dc, isC := v.(*ssa.Call); isC && calleeOf(dc) == T {
+						calls = append(calls, dc)
+					}
+				}
+			}
+		}
 		// no other boolean decision helper of the module may stand in for it
 		other := ""
 		instrs(u.h, func(b *ssa.BasicBlock, i int, in ssa.Instruction) {
@@ -278,6 +297,19 @@ func c06OperandReturned(c *Ctx, T *ssa.Function, barms map[int64]OpArm) {
 			continue
 		}
 		ops := operandParams(h)
+		hasFlag := false
+		for _, p := range h.Params {
+			if isBoolType(p.Type()) {
+				hasFlag = true
+			}
+		}
+		if (len(ops) != 2 || hasFlag) && arm.Call != nil && arm.Fold != nil {
+			// one selection helper shared by the three operators: `pick(flag, v1, v2)` with the flag computed in the
+			// operator's own arm from the decision on the left operand
+			if c.c06SelectionHelper(rule, s.sym, s.decider, s.onTrue, s.onFalse, T, arm) {
+				continue
+			}
+		}
 		if len(ops) != 2 {
 			c.R.Undecided(rule, s.sym, c.P.Pos(h.Pos()), "handler does not take two operand values")
 			continue
@@ -326,6 +358,100 @@ func c06OperandReturned(c *Ctx, T *ssa.Function, barms map[int64]OpArm) {
 		}
 	}
 	c.R.Floor(rule, 9)
+}
+
+// c06SelectionHelper: the arm calls g(.., flag, .., a, b) where a and b are the two operand values and flag is a boolean
+// computed in the arm from T(a) / IsNull(a); with the decision pinned the flag folds to a constant, and g folded with
+// that constant hands back the parameter that received the wanted operand. Returns false when the arm is not of
+// this form (the caller then reports as before).
+func (c *Ctx) c06SelectionHelper(rule, sym, decider string, onTrue, onFalse int, T *ssa.Function, arm OpArm) bool {
+	g := arm.Handler
+	call := arm.Call
+	bh := call.Parent()
+	args := call.Call.Args
+	if len(args) != len(g.Params) {
+		return false
+	}
+	var opIdx []int
+	flagIdx := -1
+	for i, a := range args {
+		switch {
+		case isBoolType(a.Type()):
+			if flagIdx >= 0 {
+				return false
+			}
+			flagIdx = i
+		case a.Type().String() == "interface{}" || a.Type().String() == "any":
+			opIdx = append(opIdx, i)
+		}
+	}
+	if os.Getenv("FCHECK_DEBUG") != "" {
+		fmt.Println("selection helper:", g.Name(), "flag", flagIdx, "operands", opIdx)
+	}
+	if flagIdx < 0 || len(opIdx) != 2 {
+		return false
+	}
+	dfn := T
+	if decider == "IsNull" {
+		dfn = c.fn("IsNull")
+	}
+	// the decision the flag is computed from
+	var dc *ssa.Call
+	var find func(v ssa.Value, depth int)
+	find = func(v ssa.Value, depth int) {
+		if depth > 3 {
+			return
+		}
+		switch x := v.(type) {
+		case *ssa.Call:
+			if calleeOf(x) == dfn {
+				dc = x
+			}
+		case *ssa.UnOp:
+			find(x.X, depth+1)
+		case *ssa.Phi:
+			for _, e := range x.Edges {
+				find(e, depth+1)
+			}
+		}
+	}
+	find(args[flagIdx], 0)
+	pos := c.P.InstrPos(call)
+	if dc == nil {
+		c.R.Check(rule, sym+":decides-on-left", pos, false, "`"+sym+"` must decide on its left operand: the flag handed to "+c.P.FuncKey(g)+" is not computed from "+decider+"(left)")
+		return true
+	}
+	onLeft := stripIface(dc.Call.Args[len(dc.Call.Args)-1]) == stripIface(args[opIdx[0]])
+	c.R.Check(rule, sym+":decides-on-left", pos, onLeft, "`"+sym+"` must decide on its left operand")
+	for _, dv := range []bool{true, false} {
+		want := onFalse
+		if dv {
+			want = onTrue
+		}
+		good, got := false, "?"
+		r := c.foldWith(bh, 0, pinValue(dc, constant.MakeBool(dv)))
+		if fv := r.Val(args[flagIdx]); fv.K == lConst && fv.C.Kind() == constant.Bool {
+			gargs := makeBottoms(len(g.Params))
+			gargs[flagIdx] = fv
+			gr := (&Folder{P: c.P, MaxDepth: 1}).Fold(g, gargs)
+			good = len(gr.Returns) > 0
+			for _, ret := range gr.Returns {
+				if ret.Results[0] != ssa.Value(g.Params[opIdx[want]]) {
+					good = false
+					got = describeValue(ret.Results[0])
+				}
+				if len(ret.Results) < 2 || !isNilConst(ret.Results[1]) {
+					good = false
+					got += " (non-nil error)"
+				}
+			}
+		} else {
+			got = "a flag that does not fold"
+		}
+		side := []string{"left", "right"}[want]
+		c.R.Check(rule, fmt.Sprintf("%s:%s=%v", sym, decider, dv), pos, good, fmt.Sprintf("when %s(left) is %v, `%s` must hand back its %s operand itself, unchanged; it returns %s", decider, dv, sym, side, got))
+	}
+	return true
 }
 
 func c06OneBranch(c *Ctx, T *ssa.Function, condH *ssa.Function, d *Dispatcher) {
